@@ -167,4 +167,138 @@ theorem bpDrain_spurious (pre : Bytes) (post : List Bytes) (reqs : List Nat) (n 
     (bpDrain [] ([] :: post) (n :: reqs)) = ([], true) := by
   simp [bpDrain, bpRead]
 
+
+/-- **An error of the source is never swallowed by `fill_buffer`**: if the call returns `Ok`, the
+bytes it returned are exactly the bytes the source carried before them, and any pending error is
+still pending in the remaining source. -/
+theorem fillBufferEv_conserves : ∀ (fuel : Nat) (src : List Ev) (n : Nat) (bs : Bytes) (src' : List Ev),
+    fillBufferEv fuel src n = some (bs, src') →
+    evHasErr src = evHasErr src' ∧ evPrefix src = bs ++ evPrefix src' ∧ bs.length ≤ n := by
+  intro fuel
+  induction fuel with
+  | zero =>
+    intro src n bs src' h
+    simp only [fillBufferEv, Option.some.injEq, Prod.mk.injEq] at h
+    obtain ⟨rfl, rfl⟩ := h; simp
+  | succ fuel ih =>
+    intro src n bs src' h
+    unfold fillBufferEv at h
+    by_cases hn : n = 0
+    · simp only [hn, if_true, Option.some.injEq, Prod.mk.injEq] at h
+      obtain ⟨rfl, rfl⟩ := h; simp
+    · simp only [hn, if_false] at h
+      cases src with
+      | nil =>
+        simp only [evRead, List.isEmpty_nil, if_true, Option.some.injEq, Prod.mk.injEq] at h
+        obtain ⟨rfl, rfl⟩ := h; simp
+      | cons e es =>
+        cases e with
+        | err => simp [evRead] at h
+        | data c =>
+          simp only [evRead] at h
+          by_cases hc : c.length ≤ n
+          · simp only [hc, if_true] at h
+            by_cases hce : c.isEmpty
+            · simp only [hce, if_true, Option.some.injEq, Prod.mk.injEq] at h
+              obtain ⟨rfl, rfl⟩ := h
+              have : c = [] := by simpa using hce
+              subst this; simp [evHasErr, evPrefix]
+            · simp only [hce, Bool.false_eq_true, if_false] at h
+              cases hrec : fillBufferEv fuel es (n - c.length) with
+              | none => simp [hrec] at h
+              | some r =>
+                obtain ⟨more, s2⟩ := r
+                simp only [hrec, Option.some.injEq, Prod.mk.injEq] at h
+                obtain ⟨rfl, rfl⟩ := h
+                obtain ⟨h1, h2, h3⟩ := ih _ _ _ _ hrec
+                refine ⟨by simpa [evHasErr] using h1, by simp [evPrefix, h2], by simp; omega⟩
+          · simp only [hc, if_false] at h
+            have hne : (c.take n).isEmpty = false := by
+              cases c with
+              | nil => simp at hc
+              | cons x t => cases n with
+                | zero => omega
+                | succ m => simp
+            simp only [hne, Bool.false_eq_true, if_false] at h
+            generalize hrec : fillBufferEv fuel (Ev.data (c.drop n) :: es) (n - (c.take n).length) = r at h
+            cases r with
+            | none => simp at h
+            | some r =>
+              obtain ⟨more, s2⟩ := r
+              simp only [Option.some.injEq, Prod.mk.injEq] at h
+              obtain ⟨rfl, rfl⟩ := h
+              obtain ⟨h1, h2, h3⟩ := ih _ _ _ _ hrec
+              refine ⟨by simpa [evHasErr] using h1, ?_, by simp at h3 ⊢; omega⟩
+              simp only [evPrefix] at h2 ⊢
+              rw [List.append_assoc, ← h2, ← List.append_assoc, List.take_append_drop]
+
+/-- **A failing refill surfaces**: if the consumer of a buffered producer sees a clean end of
+stream, no refill failed, and it got everything — it is never handed a clean, shorter result. -/
+theorem bpDrainF_clean : ∀ (reqs : List Nat) (buf : Bytes) (bs : List (Option Bytes)) (out : Bytes),
+    (∀ r ∈ reqs, 0 < r) → (∀ x, some x ∈ bs.dropLast → x ≠ []) →
+    bpDrainF buf bs reqs = (out, some true) →
+    none ∉ bs ∧ out = buf ++ (bs.filterMap id).flatten := by
+  intro reqs
+  induction reqs with
+  | nil => intro buf bs out _ _ h; simp [bpDrainF] at h
+  | cons n reqs ih =>
+    intro buf bs out hr hne h
+    have hn : 0 < n := hr n (by simp)
+    have hr' : ∀ r ∈ reqs, 0 < r := fun r hr0 => hr r (by simp [hr0])
+    cases buf with
+    | nil =>
+      cases bs with
+      | nil =>
+        simp only [bpDrainF, Prod.mk.injEq] at h
+        simp [← h.1]
+      | cons b bs' =>
+        cases b with
+        | none => simp [bpDrainF] at h
+        | some b =>
+          simp only [bpDrainF] at h
+          have hne' : ∀ x, some x ∈ bs'.dropLast → x ≠ [] := by
+            intro x hx
+            cases bs' with
+            | nil => simp at hx
+            | cons c cs => exact hne x (by simp [List.dropLast] at hx ⊢; right; exact hx)
+          by_cases hbe : (b.take n).isEmpty
+          · simp only [hbe, if_true, Prod.mk.injEq] at h
+            have hb : b = [] := by
+              cases b with
+              | nil => rfl
+              | cons x t => cases n with
+                | zero => omega
+                | succ m => simp at hbe
+            subst hb
+            -- an empty block can only be the last one
+            have : bs' = [] := by
+              cases bs' with
+              | nil => rfl
+              | cons c cs => exact absurd rfl (hne [] (by simp [List.dropLast]))
+            subst this
+            simp [← h.1]
+          · simp only [hbe, Bool.false_eq_true, if_false] at h
+            generalize hrec : bpDrainF (b.drop n) bs' reqs = r at h
+            obtain ⟨rest, st⟩ := r
+            simp only [Prod.mk.injEq] at h
+            obtain ⟨rfl, rfl⟩ := h
+            obtain ⟨h1, h2⟩ := ih _ _ _ hr' hne' hrec
+            refine ⟨by simpa using h1, ?_⟩
+            rw [h2]; simp [← List.append_assoc, List.take_append_drop]
+    | cons x t =>
+      simp only [bpDrainF] at h
+      have hte : ((x :: t).take n).isEmpty = false := by
+        cases n with
+        | zero => omega
+        | succ m => simp
+      simp only [hte, Bool.false_eq_true, if_false] at h
+      generalize hrec : bpDrainF ((x :: t).drop n) bs reqs = r at h
+      obtain ⟨rest, st⟩ := r
+      simp only [Prod.mk.injEq] at h
+      obtain ⟨rfl, rfl⟩ := h
+      obtain ⟨h1, h2⟩ := ih _ _ _ hr' hne hrec
+      refine ⟨h1, ?_⟩
+      rw [h2, ← List.append_assoc, List.take_append_drop]
+
+
 end Rpgp
